@@ -16,6 +16,7 @@ import sys
 import copybook_gen as G
 import layout_common as LC
 
+AMBIENT = False   # the histories of this check are the ambient use; the model accounts for every call that touches process-wide state
 GEN = ["GlobalsParams", "SchemaMakerParams", "StructureParams", "EffectParams"]
 RULE = ("directed histories (the two repaired defects, a parse that raises half way, a kept navigator over an ODO + REDEFINES "
         "record while other records are read, documents with forward $ref, reused makers) and random histories of 3-25 calls "
